@@ -108,6 +108,11 @@ theorem C18_resend_causes (k : Kcp) (now : U32) (s : Seg) (hs : s ∈ (flAd k no
   · exact Or.inr (Or.inl h.2)
   · exact Or.inr (Or.inr h.2)
 
+/-- non-vacuity: a segment sent once whose timer (50) is due at 100 is retransmitted by the timeout
+branch: `xmit = 2`, `rto = 200 + rx_rto = 400`, `resendts = 100 + 400` -/
+example : (flush { Kcp.new 1 with snd_buf := [{ sn := 0, xmit := 1, resendts := 50, rto := 200 }], snd_nxt := 1 } true 100
+    ).k.snd_buf.map (fun s => (s.xmit, s.rto, s.resendts)) = [(2, 400, 500)] := by decide
+
 /-- with fast resend off (`fastresend ≤ 0`) the threshold is the sentinel itself, so the fast
 branch can never fire -/
 theorem C18_no_fast_when_off (k : Kcp) (hoff : k.fastresend.sle 0 = true) (s : Seg) :
